@@ -19,7 +19,7 @@ import numpy as np
 import sympy
 
 from ..simkit import gen
-from ..simkit.core import SimCrash, WallLimit, call, canon, judge, time_limit
+from ..simkit.core import SimCrash, WallLimit, call, canon, judge, time_limit, clear_library_caches
 from ..simkit.simfs import Seams, SimFS, SimPath
 from ..simkit.simrng import POLICIES, SimRNG
 
@@ -74,6 +74,8 @@ def snap_obj(t, o):
         return ["CL", [snap_obj("C", c) for c in o]]
     if t == "TL":
         return ["TL", [pauli_sig(x) for x in o]]
+    if t == "OL":
+        return ["OL", [op_sig(x) for x in o]]
     if t == "SM":
         return ["SM", [[canon(k), canon(v)] for k, v in o.items()]]
     return [t, canon(o)]
@@ -149,6 +151,7 @@ def _ops():
     op("c_from_dict", "DD")(lambda L, a, k, e: L["circuit_from_dict"](a[0]))
     op("cl_to_dict", "CL")(lambda L, a, k, e: L["to_dict"](a[0]))
     op("c_to_unitary", "C")(lambda L, a, k, e: _sim_ok(a[0]).to_unitary())
+    op("c_from_list", "OL")(lambda L, a, k, e: L["Circuit"](a[0]) if k[0] % 2 else L["Circuit"](a[0], 1 + max([q for o in a[0] for q in o.qubit_indices] + [0]) + k[1] % 2))
     op("c_eq", "C", "C")(lambda L, a, k, e: a[0] == a[1])
     op("c_free_symbols", "C")(lambda L, a, k, e: list(a[0].free_symbols))
     op("c_collect_defs", "C")(lambda L, a, k, e: list(a[0].collect_custom_gate_definitions()))
@@ -263,7 +266,7 @@ def _cheap_exp(g):
 NUMS = [2, 0.5, -1.5, 0, 1j, (1 + 2j), 1]
 OPS = _ops()
 
-MK_TYPES = ["C", "C", "C", "G", "P", "P", "P", "M", "D", "D", "W", "SM", "CD", "CD2", "V", "CL", "TL", "BL", "DD", "OD", "PD", "PD"]
+MK_TYPES = ["C", "C", "C", "G", "P", "P", "P", "M", "D", "D", "W", "SM", "CD", "CD2", "V", "CL", "TL", "BL", "DD", "OD", "PD", "PD", "OL", "OL"]
 
 
 class World:
@@ -293,7 +296,7 @@ class World:
         "a second call with the same arguments sees the same random stream (that is what 'same operation on the same arguments' means for a sampler)",
     ]
     PROBES_EXPECTED = ["alias-chain", "call-raised", "bind-returned-self", "shared-term-objects", "shared-bitstring-list",
-                       "rng-default_rng", "rng-global-choice", "save-fault"] + [f"op:{n}" for n in OPS]
+                       "rng-default_rng", "rng-global-choice", "save-fault", "client-mutation", "result-edited"] + [f"op:{n}" for n in OPS]
 
     # ------------------------------------------------------------ generation
     def _mk(self, r, cfg, t):
@@ -341,6 +344,8 @@ class World:
         if t == "TL":
             spec = gen.rand_pauli(r, n, r.randint(0, 4), ops="XYZ", complex_coef=0.2)
             return {"t": "TL", "spec": spec}
+        if t == "OL":
+            return {"t": "OL", "spec": gen.rand_circuit(r, n, r.randint(1, 4), explicit_n=0.0, max_arity=min(n, 2), wrappers=0.2, powexp=False, custom=0.1)}
         if t == "DD":
             return {"t": "DD", "spec": gen.rand_circuit(r, n, r.randint(0, 4), explicit_n=0.5, max_arity=min(n, 3), symbolic=0.3, symbols=syms, custom=0.2, wrappers=0.3, powexp=False)}
         if t == "OD":
@@ -370,6 +375,9 @@ class World:
             if k < 0.08:
                 steps.append({"op": "mk", "args": self._mk(r, cfg, r.choice(MK_TYPES))})
                 continue
+            if k < 0.16:
+                steps.append({"op": "mutate", "args": {"ref": r.randrange(1 << 16), "k": r.randrange(1 << 12)}})
+                continue
             name = r.choice(focus) if r.random() < 0.7 else r.choice(names)
             s = {"op": "call", "args": {"name": name, "refs": [r.randrange(1 << 16) for _ in range(3)], "k": [r.randrange(1 << 12) for _ in range(3)]}}
             if name in ("m_save", "d_save", "w_save", "d_save_list") and r.random() < cfg["save_faults"]:
@@ -386,6 +394,8 @@ class World:
         for s in plan["steps"][:14]:
             if s["op"] == "mk":
                 out.append({"op": "mk", "type": s["args"]["t"]})
+            elif s["op"] == "mutate":
+                out.append({"op": "client-mutates-own-container", "ref": s["args"]["ref"]})
             else:
                 out.append({"op": s["args"]["name"], "refs": s["args"]["refs"]})
         return {"seed": plan["seed"], "config": plan["config"], "steps": out, "n_steps": len(plan["steps"])}
@@ -423,9 +433,8 @@ class World:
             "Wavefunction": WF.Wavefunction, "flip_wavefunction": WF.flip_wavefunction, "flip_amplitudes": WF.flip_amplitudes,
             "sample_from_wavefunction": WF.sample_from_wavefunction, "save_wavefunction": WF.save_wavefunction,
         }
-        st = {"L": L, "pool": [], "snaps": [], "returned": 0, "alias": False, "WF": WF, "U": U, "derived": set()}
-        for f in (WF._get_ordering, U.bitstring_to_tuple, U.tuple_to_bitstring):
-            f.cache_clear()
+        st = {"L": L, "pool": [], "snaps": [], "returned": 0, "alias": False, "WF": WF, "U": U, "derived": set(), "tainted": set()}
+        clear_library_caches()
         st["fs"] = SimFS(4096)
         st["seams"] = Seams(st["fs"]).install()
         st["rng"] = SimRNG(cfg.get("rng_mode", "real"), cfg.get("rng_policy", "uniform"), ctx.probes).install()
@@ -504,6 +513,8 @@ class World:
             return [gen.build_circuit(c) for c in a["spec"]]
         if t == "TL":
             return list(gen.build_pauli(a["spec"]).terms)
+        if t == "OL":
+            return list(gen.build_circuit(a["spec"]).operations)
         if t == "DD":
             return json.loads(json.dumps(L["to_dict"](gen.build_circuit(a["spec"]))))
         if t == "OD":
@@ -514,8 +525,10 @@ class World:
         with warnings.catch_warnings():
             warnings.simplefilter("ignore")
             if step.get("clear"):
-                for f in (st["WF"]._get_ordering, st["U"].bitstring_to_tuple, st["U"].tuple_to_bitstring):
-                    f.cache_clear()
+                clear_library_caches()
+            if step["op"] == "mutate":
+                self._do_mutate(ctx, st, step, step["args"])
+                return
             if step["op"] == "mk":
                 ok, obj = call(self._build, st, step["args"])
                 if ok and self._add(st, step["args"]["t"], obj):
@@ -620,6 +633,13 @@ class World:
             bad = [i for i, (x, y) in enumerate(zip(before, after2)) if x != y]
             st["snaps"] = after2
             ctx.fail("mutated-argument", name, f"second call of {name} changed pool[{bad[0]}]: {before[bad[0]][:300]} -> {after2[bad[0]][:300]}")
+        # containers handed to constructors that keep them by documented design are never mutated by the client
+        for nm, ty in (("m_new", "BL"), ("w_new", "V"), ("p_sum_from_terms", "TL")):
+            if name == nm:
+                st["tainted"].add(idxs[0])
+        if name == "sim_wf_init" and not args[0].operations:
+            st["tainted"].add(idxs[1])
+        self._probe_result_alias(ctx, st, name, results, before)
         res = results[0]
         t = classify(res, L)
         if name == "w_bind" and res is args[0]:
@@ -643,8 +663,132 @@ class World:
         elif name in ("w_amplitudes", "w_flip_amplitudes", "w_apply_op") and isinstance(res, np.ndarray) and res.ndim == 1:
             self._add(st, "V", res, derived=True)
         elif name == "p_circuits" and isinstance(res, list):
-            self._add(st, "CL", res, derived=True)
+            if self._add(st, "CL", res, derived=True):
+                st["tainted"].add(len(st["pool"]) - 1)   # the library's own cached list
         ctx.log("call", "ok", _sig=name)
+
+    # -- aliasing probes ------------------------------------------------------------------------------------
+    ALIAS_BY_DESIGN = {"m_new", "w_new", "p_sum_from_terms", "w_bind", "p_circuits", "p_terms", "c_ops_nq", "c_split",
+                       "cl_sum", "p_copy", "g_dagger", "g_bind", "c_bind", "p_simplify", "p_add", "p_sub", "p_mul"}
+
+    def _probe_result_alias(self, ctx, st, name, results, before):
+        """The client edits the (second, otherwise discarded) result through its public interface; no object that
+        existed before the call may change: a value does not share mutable state with the values it was computed from."""
+        if name in self.ALIAS_BY_DESIGN or (name == "sim_wf_init"):
+            return
+        r1, r2 = results
+        L = st["L"]
+        if r2 is r1 or any(r2 is o for _, o in st["pool"]):
+            return
+        done = False
+        try:
+            if isinstance(r2, L["Wavefunction"]) and not r2.free_symbols and len(r2) >= 1:
+                r2[0] = -1 * complex(np.asarray(r2.amplitudes).reshape(-1)[0])
+                done = True
+            elif isinstance(r2, L["Measurements"]) and isinstance(r2.bitstrings, list) and r2.bitstrings:
+                r2.add_counts({"".join("1" for _ in r2.bitstrings[0]): 1})
+                done = True
+            elif isinstance(r2, L["MOD"]):
+                k0 = next(iter(r2.distribution_dict))
+                r2.distribution_dict[k0] = r2.distribution_dict[k0] * 0.5 + 0.125
+                done = True
+            elif isinstance(r2, np.ndarray) and r2.size and r2.flags.writeable and r2.dtype.kind in "fc":
+                r2.flat[0] = r2.flat[0] + 1
+                done = True
+            elif isinstance(r2, list):
+                r2.append(None)
+                done = True
+            elif isinstance(r2, dict):
+                r2["__client_key__"] = 1
+                done = True
+        except Exception:  # noqa: BLE001 - the edit itself is the client's business; only its side effects matter
+            done = True
+        if not done:
+            return
+        ctx.probe("result-edited")
+        with judge(ctx, "malformed-object"):
+            now = self._snap_all(st)
+        if now != before:
+            bad = [i for i, (x, y) in enumerate(zip(before, now)) if x != y]
+            st["snaps"] = now
+            ctx.fail("mutated-argument", f"{name}:result-shares-state",
+                     f"editing the result of {name} changed pool[{bad[0]}] ({st['pool'][bad[0]][0]}): the result shares mutable state "
+                     f"with an object that existed before the call: {before[bad[0]][:250]} -> {now[bad[0]][:250]}")
+
+    MUTABLE = ("OL", "CD2", "SM", "PD", "CD", "DD", "OD", "CL", "V", "BL", "TL")
+
+    def _do_mutate(self, ctx, st, step, a):
+        """The client edits one of ITS OWN plain containers after having passed it to library calls.  No library
+        object may change (Circuit copies its operation list, the distribution constructor re-keys its input, ...)."""
+        cands = [j for j, (t, _) in enumerate(st["pool"]) if t in self.MUTABLE and j not in st["tainted"]]
+        if not cands:
+            ctx.log("mutate", "noop")
+            return
+        j = cands[a["ref"] % len(cands)]
+        t, o = st["pool"][j]
+        k = a["k"]
+        before = st["snaps"]
+        L = st["L"]
+        try:
+            if t == "OL":
+                if len(o) > 1 and k % 2:
+                    o.pop()
+                else:
+                    o.append(o[0] if o else None)
+                    if o[-1] is None:
+                        o.pop()
+            elif t in ("CD2",):
+                k0 = next(iter(o), None)
+                if k0 is not None:
+                    o[k0] = o[k0] * 0.5 + 0.125
+            elif t == "SM":
+                if o and k % 2:
+                    k0 = next(iter(o))
+                    o[k0] = o[k0] + 1.0
+                else:
+                    o[sympy.Symbol("client_added")] = 0.25
+            elif t == "PD":
+                if isinstance(o.get("sigma"), np.ndarray):
+                    o["sigma"][0] *= 2.0
+                else:
+                    o["epsilon"] = 1e-5
+            elif t == "CD":
+                k0 = next(iter(o), None)
+                if k0 is not None:
+                    o[k0] = o[k0] + 1
+            elif t == "DD":
+                if o.get("operations") and k % 2:
+                    o["operations"].pop()
+                else:
+                    o["n_qubits"] = o.get("n_qubits", 0) + 1
+            elif t == "OD":
+                if o.get("terms"):
+                    o["terms"][0]["coefficient"]["real"] = o["terms"][0]["coefficient"].get("real", 0) + 1
+                else:
+                    o["terms"] = []
+            elif t == "CL":
+                if o:
+                    o.append(o[0])
+            elif t == "V":
+                o[0] = -1 * o[0]
+            elif t == "BL":
+                o.append(tuple(0 for _ in (o[0] if o else (0,))))
+            elif t == "TL":
+                o.reverse()
+        except Exception:  # noqa: BLE001
+            ctx.log("mutate", "skip", _sig=t)
+            return
+        ctx.probe("client-mutation")
+        with judge(ctx, "malformed-object"):
+            now = self._snap_all(st)
+        others = [i for i, (x, y) in enumerate(zip(before, now)) if x != y and i != j]
+        st["snaps"] = now
+        if others:
+            i = others[0]
+            ctx.fail("mutated-argument", f"alias:{t}->{st['pool'][i][0]}",
+                     f"the client edited its own {t} container (pool[{j}]) and pool[{i}] ({st['pool'][i][0]}) changed with it: "
+                     f"{before[i][:250]} -> {now[i][:250]}")
+        ctx.log("mutate", "ok", _sig=t)
 
     # ------------------------------------------------------------ shrinking
     def shrink_step(self, s):
